@@ -268,3 +268,22 @@ package slip
 //@   ensures slice: is(val, slice_any) ==> (is(obj, List) && len(as(obj, List)) == len(as(val, slice_any)))
 //@   ensures map: is(val, map_string_any) ==> is(obj, List)
 //@   ensures nil: val == nil ==> obj == nil
+
+// ---------------------------------------------------------------------------
+// C19: load forms. Building a load form reads the object only.
+//@ pure-method LoadFormer.LoadForm
+
+// a (quote x) form
+//@ define quoted(f, x) = is(f, List) && len(as(f, List)) == 2 && as(f, List)[0] == box(quoteSymbol, Symbol) && as(f, List)[1] == x
+
+// The load form of a proper list is (list e1' ... en') where ei' is the load
+// form of ei; an element that is a symbol must be quoted: the form is
+// evaluated when it is loaded and a bare symbol would be read as a variable.
+//@ func slip.(List).LoadForm
+//@   property C19
+//@   ensures proper-list-form: (len(obj) < 2 || !is(obj[len(obj) - 1], Tail)) ==> (is(result0, List) && len(as(result0, List)) == len(obj) + 1 && as(result0, List)[0] == box(ListSymbol, Symbol))
+//@   ensures symbols-are-quoted: (len(obj) < 2 || !is(obj[len(obj) - 1], Tail)) ==> (forall k :: (0 <= k && k < len(obj) && is(obj[k], Symbol)) ==> quoted(as(result0, List)[k + 1], obj[k]))
+//@   ensures nil-stays-nil: (len(obj) < 2 || !is(obj[len(obj) - 1], Tail)) ==> (forall k :: (0 <= k && k < len(obj) && obj[k] == nil) ==> as(result0, List)[k + 1] == nil)
+//@   loop rangeindex+1<len(obj): invariant shape: len(form) == len(obj) + 1 && fresh(form) && form[0] == box(ListSymbol, Symbol)
+//@   loop rangeindex+1<len(obj): invariant nil-stays-nil: forall k :: (0 <= k && k <= rangeindex && obj[k] == nil) ==> form[k + 1] == nil
+//@   loop rangeindex+1<len(obj): invariant symbols-are-quoted: forall k :: (0 <= k && k <= rangeindex && is(obj[k], Symbol)) ==> quoted(form[k + 1], obj[k])
